@@ -128,3 +128,72 @@ def build(run):
                             role=lambda v, o: "element=%s" % (kinds[v[0][0]] if v and v[0][0] < len(kinds) else "?"),
                             covers=["mmultiscripts with prescripts reachable", "mfrac with two children reachable"],
                             claim="the fixed-arity block of assure_mathml returns Err exactly for child counts MathML does not allow")], timeout=300)
+    crate_c, lemma_c = mm_lemma(run)
+    run.kani(crate_c, [lemma_c], timeout=900)
+
+
+# ======================================================================================================================
+# D-C02-c / D-C08-h: clean_mmultiscripts over the model DOM
+MM_SHIM = r'''
+pub struct CanonicalizeContext;
+impl CanonicalizeContext { fn create_empty_element<'a>(doc: &Document<'a>) -> Element<'a> { create_mathml_element(doc, "mtext") } }
+'''
+
+MM_HARNESS = r'''
+// D-C02-c: clean_mmultiscripts on ANY child list (cleaning of the children may have deleted some): no panic, legal arity afterwards, nothing but none/none pairs lost
+HARNESS(clean_mmultiscripts_total_and_legal, 12) {
+    let n = 1 + sym::below(6);
+    let mm = dom::new_node(3);
+    let mut kinds = [0u8; 6];
+    let mut n_pre = 0;
+    let mut i = 0;
+    while i < 6 {
+        if i < n {
+            let k = if i == 0 { 0 } else { sym::below(3) as u8 };            // base: mi; others: mi / none / mprescripts
+            if k == 2 { n_pre += 1; }
+            kinds[i] = k;
+            let c = dom::new_node(k);
+            mm.append_child_id(c.id);
+        }
+        i += 1;
+    }
+    sym::assume(n_pre <= 1);                                                 // the MathML schema allows one mprescripts
+    let first_new = unsafe { dom::NNODES };
+    let r = clean_mmultiscripts(mm).unwrap();                                // must not panic
+    cover!(n == 2, "a script child was deleted before (even child count) reachable");
+    cover!(n_pre == 1 && n == 5, "prescripts reachable");
+    if r.id == mm.id {
+        let ch = r.children();
+        let m = ch.len();
+        let mut pre_at = m; let mut j = 0;
+        while j < m { if name(&as_element(ch[j])) == "mprescripts" { pre_at = j; } j += 1; }
+        if pre_at == m { assert!(m % 2 == 1, "mmultiscripts without mprescripts is left with an even number of children"); }
+        else { assert!(m % 2 == 0 && pre_at % 2 == 1, "mmultiscripts with mprescripts is left with unpaired scripts"); }
+        // every visible (mi) child of the input is still there, in order
+        let mut want = 0; j = 0;
+        while j < m { let id = as_element(ch[j]).id as usize; if id < first_new && name(&as_element(ch[j])) == "mi" { while want < n && kinds[want] != 0 { want += 1; } assert!(want < n && id == mm.id as usize + 1 + want, "children reordered"); want += 1; } j += 1; }
+        while want < n { assert!(kinds[want] != 0, "a visible script was dropped"); want += 1; }
+    } else {
+        assert!(r.id == mm.id + 1, "lifted something other than the base");
+        let mut j = 1; while j < n { assert!(kinds[j] != 0, "a visible script was dropped when lifting the base"); j += 1; }
+    }
+}
+'''
+
+
+def api_mm(vals=None, out=None):
+    res = mcprobe([("mathml", "<math><mmultiscripts><mi>x</mi><mphantom><mi>y</mi></mphantom><mn>2</mn></mmultiscripts></math>"), ("mathml", "<math><mi>z</mi></math>")])
+    return res[0][0] not in ("OK", "ERR"), {"script": "set_mathml(mmultiscripts whose subscript is an mphantom: the child is deleted while cleaning)", "results": res}
+
+
+def mm_lemma(run):
+    c = slicer.Source.get("src/canonicalize.rs")
+    f = c.find("fn clean_mathml", "fn clean_mmultiscripts")
+    run.uses(f)
+    crate = kani_run.Crate("c02mm", prelude.MINIDOM + MM_SHIM + f.text + MM_HARNESS)
+    run.bound("D-C02-c", "mmultiscripts with 1..6 children: base + any mix of visible script / none / at most one mprescripts at any position (model DOM: 16 nodes, 8 children)")
+    run.assume("sxd_document replaced by the model DOM of lib/prelude.py (MINIDOM): index-based nodes, fixed-capacity child vectors; create_empty_element reduced to creating an mtext node")
+    return crate, dict(id="D-C02-c.clean_mmultiscripts", harness="clean_mmultiscripts_total_and_legal", api=lambda v, o: api_mm(),
+                       role=lambda v, o: "panic-on-unpaired-script" if "REPLAY-PANIC" in o and "index out of bounds" in o else "illegal-arity-or-lost-script",
+                       covers=["a script child was deleted before (even child count) reachable", "prescripts reachable"],
+                       claim="no panic for any child count; result has a legal arity (odd without / even with mprescripts at an odd index); visible scripts kept in order")
